@@ -19,6 +19,8 @@ def n_cases(tier, quick, thorough):
 # case = {id, classes, objs, vars, args [term...], rule}
 
 def rule_sexp(case):
+    case = case.get('explicit', case)       # heads with nested constructor arguments carry their explicit twin
+
     def kid(kind, r):
         return (kind, r['tag'], ('cond',) + tuple(r['cond']), ('kids',) + tuple(kid(k, c) for k, c in r['kids']))
     r = case['rule']
@@ -78,7 +80,7 @@ def rule_impl(job):
     from entity_query_language.symbolic import Variable
     res = {'id': case['id'], 'impl': {}}
     try:
-        res['spec'] = RuleOracle(case).rule_rows()
+        res['spec'] = RuleOracle(case.get('explicit', case)).rule_rows()
     except Exception as e:
         res['spec_exc'] = f'{type(e).__name__}: {e}'
         return res
@@ -97,17 +99,26 @@ def rule_impl(job):
                 f0: object = None
                 f1: object = None
                 f2: object = None
-            with symbolic_mode():
-                b.declare_vars()
-                views = let(Vw)
-                base_conds = [b.cond(c) for c in case['rule']['cond']]
-                q = infer(entity(views, *base_conds))
-
             def conclusion(tag):
-                kw = {'tag': tag}
+                # keyword order matters to the construction: the constant tag is written first or last
+                kw = {} if case.get('tag_last') else {'tag': tag}
                 for i, t in enumerate(case['args']):
                     kw[f'f{i}'] = b.term(t)
+                kw['tag'] = tag
                 return Vw(**kw)
+
+            if case.get('direct_head'):
+                # C11's own form: infer(entity(T(f1=e1, ...), conditions)) written in rule mode
+                with rule_mode():
+                    b.declare_vars()
+                    base_conds = [b.cond(c) for c in case['rule']['cond']]
+                    q = infer(entity(conclusion(case['rule']['tag']), *base_conds))
+            else:
+                with symbolic_mode():
+                    b.declare_vars()
+                    views = let(Vw)
+                    base_conds = [b.cond(c) for c in case['rule']['cond']]
+                    q = infer(entity(views, *base_conds))
 
             def build(node):
                 Add(views, conclusion(node['tag']))
@@ -115,15 +126,26 @@ def rule_impl(job):
                     cm = refinement if kind == 'ref' else alternative
                     with cm(*[b.cond(c) for c in ch['cond']]):
                         build(ch)
-            with rule_mode(q):
-                build(case['rule'])
-            try:
-                res['tree'] = show_rule_tree(b, q)
-            except Exception as e:
-                res['tree'] = f'(?tree {type(e).__name__}: {e})'
+            if not case.get('direct_head'):
+                with rule_mode(q):
+                    build(case['rule'])
+                try:
+                    res['tree'] = show_rule_tree(b, q)
+                except Exception as e:
+                    res['tree'] = f'(?tree {type(e).__name__}: {e})'
             outs = []
             ctx = {None: contextlib.nullcontext, 'query': symbolic_mode, 'rule': rule_mode}[ambient]
             n_before = sum(1 for _ in _registered(Variable, Vw))
+            if case.get('pre_take') is not None:
+                # an abandoned evaluation of the same rule first (must not change what follows)
+                with ctx():
+                    it = iter(q.evaluate())
+                    try:
+                        for _ in range(case['pre_take']):
+                            next(it)
+                    except StopIteration:
+                        pass
+                    it.close()
             for _ in range(opts.get('evals', 1)):
                 with ctx():
                     made = list(q.evaluate())
@@ -287,6 +309,12 @@ def c12(report, rng, tier, findings):
 
 # ------------------------------------------------------------------------------------------- C11
 
+def nonuniform_or_r(c):
+    """A disjunction whose sides mention different variables (its true outputs may leave a variable unbound)."""
+    from .props_q2 import nonuniform_or
+    return nonuniform_or(c)
+
+
 def c11(report, rng, tier, findings):
     n = n_cases(tier, 240, 3000)
     cases = []
@@ -301,21 +329,52 @@ def c11(report, rng, tier, findings):
         args = []
         for v in ids:
             args.append(rng.choice([('var', v), ('var', v), ('attr', 'ref', ('var', v)), ('attr', 'b', ('var', v))]))
-        if rng.random() < 0.4 and len(args) < 3:
-            args.append(rng.choice([('lit', rng.choice(gen.FALSY + [('i', 7)])), ('attr', 'a', ('var', ids[0]))]))
-        # the body: any condition (disjunction / negation allowed) as long as it mentions every variable
+        if rng.random() < 0.5 and len(args) < 3:
+            args.append(rng.choice([('lit', rng.choice(gen.FALSY + [('i', 7)])), ('attr', 'a', ('var', ids[0])),
+                                    ('attr', 'a', ('var', ids[-1]))]))
+        if rng.random() < 0.4:
+            rng.shuffle(args)
+        # the body: any condition (disjunction / negation allowed); in 35% of the rules it leaves a head variable
+        # UNBOUND (a head-only variable, or the far side of a disjunction over different variables): the head then
+        # enumerates that variable's domain
         body = []
-        for v in ids:
+        bound = list(ids)
+        r_b = rng.random()
+        if r_b < 0.2 and len(ids) >= 2:
+            bound = rng.sample(ids, len(ids) - 1)            # one variable is head-only
+        for v in bound:
             g.var_ids = [v]
             body.append(g.cond(rng.randint(0, 2)))
         g.var_ids = ids
-        if nv == 2 and rng.random() < 0.6:
+        if 0.2 <= r_b < 0.35 and nv == 2:
+            body = [('or', body[0], body[1])]
+        elif nv == 2 and rng.random() < 0.6 and len(bound) == 2:
             body.append(g.cond(1))
-        cases.append({'id': f'i{i}', 'classes': base['classes'], 'objs': base['objs'], 'vars': base['vars'],
-                      'args': args, 'rule': {'tag': 0, 'cond': body, 'kids': []}})
+        case = {'id': f'i{i}', 'classes': base['classes'], 'objs': base['objs'], 'vars': base['vars'],
+                'args': args, 'rule': {'tag': 0, 'cond': body, 'kids': []}}
+        if rng.random() < 0.25 and len(args) < 3:
+            # a NESTED CONSTRUCTOR argument C(ref=e): the existing instances of C whose field equals e; the explicit twin
+            # ranges a fresh variable over all objects of that class and carries the equality in its body
+            z = 90
+            cls = rng.choice([c for c, _ in base['classes']])
+            e = rng.choice([('var', v) for v in ids] + [('attr', 'ref', ('var', ids[0]))])
+            k = rng.randint(0, len(args))
+            all_objs = [('o', j) for j, _, _ in base['objs']]
+            case['args'] = args[:k] + [('nestedc', cls, 'ref', e)] + args[k:]
+            case['explicit'] = {**case, 'args': args[:k] + [('var', z)] + args[k:],
+                                'vars': list(base['vars']) + [(z, cls, all_objs)],
+                                'rule': {'tag': 0, 'kids': [],
+                                         'cond': body + [('cmp', 'eq', ('attr', 'ref', ('var', z)), e)]}}
+            case['nested_head'] = True
+        if rng.random() < 0.25:
+            case['pre_take'] = rng.randint(1, 3)
+        cases.append(case)
     report.rule = ("random rules infer(entity(T(f=e, ...), body)) over 1-2 variables: heads with variables, attribute expressions "
-                   "(object-valued and value-valued, falsy values included) and constants as arguments, every variable mentioned by "
-                   "the head; bodies with conjunction, disjunction, negation and predicates; evaluated under ambient mode none / "
+                   "(object-valued and value-valued, falsy values included) and constants as arguments in any order, every variable "
+                   "mentioned by the head; bodies with conjunction, disjunction, negation and predicates, 35% of them leaving a "
+                   "head variable unbound (head-only variable, disjunction over different variables); 25% of the heads carry a "
+                   "nested constructor argument C(ref=e) (= the existing instances of C whose field equals e); 25% of the rules "
+                   "are evaluated after an evaluation of the same rule abandoned after 1-3 instances; evaluated under ambient mode none / "
                    "query / rule, caching on and off, twice; the multiset of (class, field values by dataset identity) is compared "
                    "with the oracle bindings; non-trivial = at least one and not all assignments satisfy the body")
 
@@ -325,6 +384,22 @@ def c11(report, rng, tier, findings):
         for v in case['vars']:
             total *= len(o.dom(v[0]))
         return 0 < len(res['spec']) < total
+    # half of the rules are written in the property's own form infer(entity(T(f=e, ...), body)), the others as a one-node
+    # rule tree (entity(let(T), body) + Add(views, T(f=e, ...))); a head variable the body leaves unbound is in the
+    # property's scope for the first form only (a conclusion is evaluated once per body solution)
+    def form(c):
+        bound_ = set().union(*[surface.cond_vars(x) for x in c['rule']['cond']])
+        uniform = not any(nonuniform_or_r(x) for x in c['rule']['cond'])
+        return 'direct' if (c.get('nested_head') or not ({v[0] for v in c['vars']} <= bound_) or not uniform
+                            or int(c['id'][1:]) % 2 == 0) else 'add'
+    for c in cases:
+        report.count('form_' + form(c))
+        if c.get('nested_head'):
+            report.count('nested_constructor_argument')
+        if c.get('pre_take') is not None:
+            report.count('after_an_abandoned_evaluation')
+        c['direct_head'] = form(c) == 'direct'
+        c['tag_last'] = int(c['id'][1:]) % 3 != 0
     results = pmap(rule_impl, [(c, {'caching': (False, True), 'evals': 2, 'ambients': (None, 'query', 'rule')})
                                for c in cases])
     lines = run_driver([rule_sexp(c) for c in cases])
